@@ -39,8 +39,12 @@ def run(tier, seed):
         res = explore(sysm, state_cap=3_000_000, replay_cap=4000)
         name = f"{kw['universe']} prune={kw['prune']} cache={kw['use_cache']} M<={kw['max_mut']}" + (" +batches" if kw.get("batch_mut") else "")
         rep.add_bfs(name, res, sysm, keep_samples=1)
-        rep.parts[-1]["terminal_states"] = res.stats.get("terminal", 0)
-        rep.parts[-1]["schedules_note"] = "every path from an initial state to a terminal state is one schedule; states are merged when equal"
+        rep.parts[-1]["terminal_states"] = res.terminal_states
+        rep.parts[-1]["schedules"] = res.paths_to_terminals
+        rep.parts[-1]["schedules_note"] = ("number of distinct complete event sequences (walk orders x mutation placements) from an initial state to a "
+                                           "fog-complete state, counted by dynamic programming over the explored state graph; every one of them ends in "
+                                           "a checked terminal state" + ("" if not res.late_edges else f"; lower bound ({res.late_edges} non-level edges)"))
+        rep.cov["schedules"] = rep.cov.get("schedules", 0) + res.paths_to_terminals
     return rep
 
 
